@@ -221,6 +221,17 @@ def gen_roundtrip(tier, R):
             trees.append(('call', 'f', [('bin', o, a, b_), ('un', u, c)]))
             trees.append(('arr', [('un', u, ('call', 'g', [])), ('bin', o, ('arr', []), ('call', 'h', [a]))]))
             trees.append(('bin', o, ('call', 'f', [a]), ('un', u, ('call', 'g', [b_, c]))))
+    # the same operator pairs over every KIND of leaf in every position (a rewrite keyed on "literal here, variable there" shows only for one assignment of kinds)
+    kinds = [('var', 'x'), ('num', '1'), ('num', '2.5'), ('str', 'a'), ('call', 'f', [('var', 'y')]), ('arr', [('num', '1')]), ('kwlit', 'true')]
+    kinds = [k for k in kinds if k[0] != 'kwlit']
+    same = [('+', '+'), ('*', '*'), ('-', '-'), ('/', '/'), ('and', 'and'), ('or', 'or'), ('xor', 'xor'), ('=', '='), ('<', '<'), ('+', '-'), ('-', '+'), ('*', '/'), ('+', '*'), ('*', '+'), ('div', 'mod'), ('and', 'or')]
+    same = [(o, i) for o, i in same if o in ops and i in ops]
+    for o, i in same:
+        for l1 in kinds:
+            for l2 in kinds[:4]:
+                for l3 in kinds[:4]:
+                    trees.append(('bin', o, ('bin', i, l1, l2), l3))
+                    trees.append(('bin', o, l1, ('bin', i, l2, l3)))
     depth = 6 if tier == 'quick' else 12
     for _ in range(1500 if tier == 'quick' else 300000):
         trees.append(rnd_tree(R, R.randint(1, depth), 3 if tier == 'quick' else 6))
@@ -356,6 +367,17 @@ def gen_total(tier, R):
             out.append(text_case('text', op * d))
             out.append(text_case('text', op * d + '1' + cl * (d - 1)))
             out.append(text_case('text', cl * d + '1'))
+    # string literals and comments whose special characters (doubled quote, closing brace, line end) come after multi-byte text at every small offset
+    for pre in ["", "a", "é", "éa", "aé", "日本", "café", "😀", "x😀é", "ßßß"]:
+        for mid in ["''", "''''", "'' ''", "''é''"]:
+            for post in ["s", "", "é"]:
+                out.append(text_case('text', "'" + pre + mid + post + "'"))
+                out.append(text_case('text', "n = '" + pre + mid + post + "' + 1"))
+                out.append(text_case('text', "'" + pre + mid + post))
+        out.append(text_case('text', "1 {" + pre + "} + 2"))
+        out.append(text_case('text', "1 {" + pre + " {" + pre + "} } + 2"))
+        out.append(text_case('text', "1 // " + pre + "\n + 2"))
+        out.append(text_case('text', pre + "x // " + pre))
     pool = "aZ_09 \t\n+-*/()[],.<>='{}$éß日本😀́  ٣½²ǅ\x00\x7f﻿"
     # long FLAT chains (nesting depth 0): the parser must consume them in its loop, not by recursion - recursion depth that grows with the length overflows the stack here
     for opt in ['+', '-', '*', '/', ' div ', ' mod ', ' and ', ' or ', ' xor ', '=', '<>', '<', '>', '<=', '>=']:
